@@ -113,8 +113,16 @@ def generate(run_seed: int, cfg: Dict[str, Any]) -> Dict[str, Any]:
     abort_rate = rk.choice([0.1, 0.2, 0.35]) if faulty else 0.0
     noise_rate = rk.choice([0.1, 0.25])
     ops = []
+    mutate_rate = rk.choice([0.0, 0.1, 0.2]) if faulty else 0.0
     for i in range(n_ops):
         client = rs.randrange(n_clients)
+        evals = [o["id"] for o in ops if o["kind"] == "eval" and o["backend"] == "pandas" and "abort_at" not in o]
+        if evals and rf.random() < mutate_rate:
+            # F6: the client changes, in place, a result frame an earlier evaluation handed to it
+            ops.append({"id": i, "client": client, "kind": "mutate", "target": rf.choice(evals), "pipe": 0,
+                        "how": rf.choice(["setcell", "addcol", "dropcol", "sort", "rename", "setcol", "reindex_labels"]),
+                        "a": rf.randrange(4)})
+            continue
         if ro.random() < noise_rate:
             ops.append({"id": i, "client": client, "kind": "noise", "what": ro.choice(NOISE), "pipe": ro.randrange(n_pipes)})
             continue
@@ -175,6 +183,8 @@ def _run(scn, log: EventLog, stats: Stats):
     first: Dict[Tuple[int, str, str], Any] = {}
     kinds: List[str] = []
     aborted_since: Dict[Tuple[int, str], bool] = {}
+    results: Dict[int, Any] = {}
+    from sim.props.c25 import mutate_in_place
 
     def get_ops(pi: int, flavour: str):
         """flavour: plain | cap:pandas | cap:polars"""
@@ -202,6 +212,23 @@ def _run(scn, log: EventLog, stats: Stats):
             pipe = scn["pipes"][pi]
             tabs = W.pipeline_tables(pipe)
             log.emit(f"client{op['client']}", op["kind"], {k: v for k, v in op.items() if k not in ("client",)})
+            if op["kind"] == "mutate":
+                kinds.append("mutate")
+                tgt = results.get(op["target"])
+                if tgt is not None and type(tgt).__module__.startswith("pandas"):
+                    try:
+                        if mutate_in_place(tgt, op["how"], op["a"]):
+                            stats.fault("alias-mutate")
+                    except Exception:
+                        stats.probe("mutation-refused-by-pandas")
+                # The property promises that *evaluation* leaves the inputs alone; it does not promise that a result
+                # shares no memory with an input. (pandas 3.0.5: the result of pd.merge(how="right") written through
+                # .iat changes the right input - reproduced with plain pandas.) If the client's own write reached an
+                # input, the inputs are no longer "the same inputs": stop the run here, judging nothing further.
+                if any(snapshot(v) != snaps[k] for k, v in pool.items()):
+                    stats.probe("own-result-write-reached-an-input")
+                    return
+                continue
             if op["kind"] == "noise":
                 kinds.append("noise:" + op["what"])
                 o = get_ops(pi, "plain")
@@ -303,6 +330,7 @@ def _run(scn, log: EventLog, stats: Stats):
             for k, v in pool.items():
                 if res is v:
                     raise Violation((PROP, backend, style, "returned-callers-object"), k, step)
+            results[op["id"]] = res
             cols = [str(c) for c in res.columns]
             canon = canon_table(res)
             log.emit(backend, "result", {"cols": sorted(cols), "canon": canon})
@@ -415,7 +443,8 @@ RULE = ("one evaluation = one seeded scenario: a pool of caller-owned frames (1-
         "labelling, Polars eager or lazy}, also captured by reference via data()/descr()), 2-6 pipelines of up to 6 steps "
         "from the C18 generator, and a history of 8-30 (thorough: 8-40) operations by 2-3 interleaved clients: eval / "
         "transform / >> / ex() on Pandas and Polars, SQL generation and execution, repr/to_python/columns_used, "
-        "describe_table; odd run-seeds abort 10-35% of the evaluations at a chosen executor call-back (F4). After "
+        "describe_table; odd run-seeds abort 10-35% of the evaluations at a chosen executor call-back (F4) and let clients "
+        "mutate, in place, result frames they were handed earlier (F6). After "
         "every operation all pool frames are compared with their creation snapshots and every result with the first "
         "result of the same (pipeline, backend, style). distinct = distinct scenario digest; non-trivial = at least "
         "one evaluation returned rows.")
